@@ -9,6 +9,11 @@ clears the slot AFTER `_process_actions_for_packet` returns, without try/finally
 would leave the slot occupied and the id usable again.  Whether an action can raise on a well-formed request is C12's
 subject (its theorems and harness say no); `useStep` models the non-raising path only.
 
+`alloc p (fr, port)` stores the VALUE of the frame at that moment.  The code stores a packet OBJECT: the one `rx_packet` was
+given for a table miss, and (repair C18-2) a private copy for everything buffered from inside an action list (output:CONTROLLER,
+output:TABLE into a miss) — so the set_* actions that follow in the same list cannot change what the id stands for.  Rewrites
+BEFORE the output are part of the frame that arrives (the harness applies them to `fr`).
+
 Vocabulary: a buffered packet sent through output:TABLE into a table MISS is re-buffered with `miss_send_len` — that is
 `.useCtl id s.missLen`; two output:CONTROLLER actions in one list are `[.arrive fr port (some d1), .useCtl id d2]`.
 Core only. -/
@@ -55,7 +60,10 @@ inductive Op
   /-- a frame reaches the controller path: `dl = none` table miss (truncate to `miss_send_len`),
       `dl = some n` output:CONTROLLER action with `max_len = n` -/
   | arrive (fr : Bytes) (port : Nat) (dl : Option Nat)
-  /-- packet_out / flow_mod naming a buffer id -/
+  /-- packet_out / flow_mod naming a buffer id.  A flow_mod in every flavour whose handler runs: ADD, MODIFY / MODIFY_STRICT
+      (modify, or fall back to add) — including one whose TABLE operation is then refused (table full, OFPFF_CHECK_OVERLAP
+      conflict, OFPFF_EMERG with or without timeouts / SEND_FLOW_REM): `_rx_flow_mod` goes on to the buffer whatever the
+      handler did with the table. -/
   | use (id : Nat)
   /-- packet_out / flow_mod naming a buffer id whose action list sends the packet to the controller again
       (output:CONTROLLER with `max_len = dl`): the packet is re-buffered WHILE its old slot is still occupied
